@@ -362,7 +362,7 @@ impl Check for C03Check {
     fn components(&self) -> Value {
         json!({"real": ["alpha_g_detector::padwing::Chunk::try_from", "Chunk accessors, Display", "crc32c crate (inside the decoder)"],
                "model": ["PWB sender (ChunkSpec encoder)", "independent bit-wise/table CRC-32C", "UDP link corruption injector", "reference well-formedness predicate"],
-               "simulated": [], "stub": []})
+               "simulated": ["allocator limit: the processes run under a 4 GiB address-space limit, so a wild allocation fails (abort) instead of being over-committed"], "stub": []})
     }
     fn count(&self, tier: Tier) -> u64 {
         match tier {
